@@ -182,6 +182,6 @@ theorem C11_endpoint_defaults (o : Ora) :
 theorem C11_source_current :
     FactsUtil.sameHashes ["provider.IdentityProvider.GetRoutes",
       "provider.CreateRouter", "provider.NewProvider", "provider.NewIdentityProvider",
-      "provider.IdentityProvider.certificateHandleFunc", "provider.intercept", "provider.IssuerInterceptor.setIssuerCtx"] = true := by decide
+      "provider.intercept", "provider.IssuerInterceptor.setIssuerCtx"] = true := by decide
 
 end C11
